@@ -152,6 +152,15 @@ def ownMeta : Deco → Meta
 
 def decorate (d : Deco) (f : Fn) : Meta := mimic f (ownMeta d)
 
+/-- the decorated object seen as a callable again – it can be decorated in turn (`timeout(1)(retry(f))`): a new object
+(`newId`) carrying the mimicked metadata -/
+def asFn (m : Meta) (newId : Nat) (run : Behaviour) : Fn := { id := newId, name := m.name, doc := m.doc, run := run }
+
+/-- a stack of decorators, outermost first, each with the identity of the wrapper object it creates -/
+def stackFn : List (Deco × Nat) → Fn → Fn
+  | [], f => f
+  | (d, i) :: rest, f => asFn (decorate d (stackFn rest f)) i (stackFn rest f).run
+
 /-! ## a scripted behaviour, for the driver: what the harness' test functions do -/
 
 /-- outcome `o`; enters `ctx.updated(A(leak))` and never leaves it when `leak > 0`; records `M(k)` when `k > 0` -/
